@@ -444,11 +444,197 @@ class _QuietCtx:
 _QUIET = _QuietCtx()
 
 
+# ---------------------------------------------------------------- cells
+class D(S):
+    """y is derived from x by an ordinary change handler: a change arriving
+    through the x link makes the receiver assign its own y while the x
+    propagation is still in flight"""
+
+    def _x_changed(self, new):
+        self.y = 2 * new
+
+
+LINK_STYLES = (None, "mutual", "ab", "ba")
+
+
+def derived_cells(ctx, tier):
+    import itertools
+    evs = [(o, a, v) for o in "ab" for a in "xy" for v in (1, 2, 3)]
+    depth = 2 if tier == "quick" else 3
+    for sx, sy, first in itertools.product(LINK_STYLES, LINK_STYLES,
+                                           ("x", "y")):
+        if sx is None and sy is None:
+            continue
+        for n in range(1, depth + 1):
+            for hist in itertools.product(evs, repeat=n):
+                ctx.case({"cell": "derived", "sx": sx, "sy": sy,
+                          "first": first, "history": [list(e) for e in hist]})
+                ctx.ev()
+                a, b = D(), S()
+                objs = {"a": a, "b": b}
+                model = {("a", "x"): 0, ("a", "y"): 0, ("b", "x"): 0,
+                         ("b", "y"): 0}
+                links = set()
+
+                def massign(o, at, v):
+                    if model[(o, at)] == v:
+                        return
+                    model[(o, at)] = v
+                    if o == "a" and at == "x":
+                        massign("a", "y", 2 * v)
+                    for (s_, d_) in sorted(links):
+                        if s_ == (o, at):
+                            massign(d_[0], d_[1], v)
+                errors = []
+                push_exception_handler(handler=handler_recorder(errors),
+                                       reraise_exceptions=False, main=True)
+                try:
+                    for attr in ((("x", sx), ("y", sy)) if first == "x"
+                                 else (("y", sy), ("x", sx))):
+                        at, style = attr
+                        if style == "mutual":
+                            a.sync_trait(at, b)
+                            links |= {(("a", at), ("b", at)),
+                                      (("b", at), ("a", at))}
+                        elif style == "ab":
+                            a.sync_trait(at, b, mutual=False)
+                            links.add((("a", at), ("b", at)))
+                        elif style == "ba":
+                            b.sync_trait(at, a, mutual=False)
+                            links.add((("b", at), ("a", at)))
+                    for (o, at, v) in hist:
+                        ctx.tr()
+                        setattr(objs[o], at, v)
+                        massign(o, at, v)
+                        got = {(k, t): getattr(objs[k], t) for k in "ab"
+                               for t in "xy"}
+                        if got != model:
+                            ctx.violation(
+                                "C20:derived-handler:%s:%s" % (sx, sy),
+                                "x links %s, y links %s, a.y derived from "
+                                "a.x by a change handler; after %s.%s = %r: "
+                                "%r, expected %r" % (
+                                    sx, sy, o, at, v,
+                                    sorted(got.items()),
+                                    sorted(model.items())),
+                                history=[list(e) for e in hist])
+                            break
+                        ctx.outcome("propagated")
+                except Exception as exc:
+                    ctx.violation("C20:derived-handler-raises",
+                                  "raised %r" % (exc,),
+                                  history=[list(e) for e in hist])
+                finally:
+                    pop_exception_handler()
+                if errors:
+                    ctx.violation("C20:derived-handler-internal",
+                                  "exception inside the library's handlers: "
+                                  "%s" % errors[:2],
+                                  history=[list(e) for e in hist])
+                ctx.state(("derived", sx, sy, first, hist))
+
+
+def restyle_cells(ctx):
+    """the style of an existing link is changed by a second sync_trait call
+    without removal in between (one-way upgraded to mutual, from either end;
+    a repeated request); afterwards both directions work, and one removal
+    ends the link"""
+    for attr in ("x", "l"):
+        for second in ("a-mutual", "b-mutual", "a-oneway-again"):
+            ctx.case({"cell": "restyle", "attr": attr, "second": second})
+            ctx.ev()
+            ctx.tr()
+            a, b = S(), S()
+            if attr == "l":
+                a.l, b.l = [1, 2], [5]
+            a.sync_trait(attr, b, mutual=False)
+            if second == "a-mutual":
+                a.sync_trait(attr, b)
+            elif second == "b-mutual":
+                b.sync_trait(attr, a)
+            else:
+                a.sync_trait(attr, b, mutual=False)
+            mutual = second != "a-oneway-again"
+
+            def poke(o, v):
+                if attr == "x":
+                    o.x = v
+                else:
+                    o.l.append(v)
+
+            def val(o):
+                return o.x if attr == "x" else list(o.l)
+            errors = []
+            push_exception_handler(handler=handler_recorder(errors),
+                                   reraise_exceptions=False, main=True)
+            try:
+                poke(a, 7)
+                if val(b) != val(a):
+                    ctx.violation("C20:restyle:%s:%s:forward" % (attr, second),
+                                  "after the second sync_trait call a change "
+                                  "of a.%s did not reach b (%r / %r)"
+                                  % (attr, val(a), val(b)),
+                                  history=[["restyle", attr, second]])
+                before = val(a)
+                poke(b, 8)
+                if mutual and val(a) != val(b):
+                    ctx.violation("C20:restyle:%s:%s:reverse" % (attr, second),
+                                  "a one-way link upgraded to mutual does "
+                                  "not propagate b.%s to a (%r / %r)"
+                                  % (attr, val(a), val(b)),
+                                  history=[["restyle", attr, second]])
+                if not mutual and val(a) != before:
+                    ctx.violation("C20:restyle:%s:%s:oneway" % (attr, second),
+                                  "one-way link propagated backwards",
+                                  history=[["restyle", attr, second]])
+                ctx.outcome("propagated")
+                # removal ends the link in both directions
+                if second == "b-mutual":
+                    b.sync_trait(attr, a, remove=True)
+                else:
+                    a.sync_trait(attr, b, mutual=mutual, remove=True)
+                va, vb = val(a), val(b)
+                poke(a, 9)
+                if val(b) != vb:
+                    ctx.violation("C20:restyle:%s:%s:after-removal"
+                                  % (attr, second), "a change of a.%s still "
+                                  "reaches b after the link was removed"
+                                  % attr, history=[["restyle", attr, second]])
+                va = val(a)
+                poke(b, 10)
+                if val(a) != va:
+                    ctx.violation("C20:restyle:%s:%s:after-removal"
+                                  % (attr, second), "a change of b.%s still "
+                                  "reaches a after the link was removed"
+                                  % attr, history=[["restyle", attr, second]])
+                ctx.outcome("after-unsync-silent")
+            except Exception as exc:
+                ctx.violation("C20:restyle-raises:%s:%s" % (attr, second),
+                              "raised %r" % (exc,),
+                              history=[["restyle", attr, second]])
+            finally:
+                pop_exception_handler()
+            if errors:
+                ctx.violation("C20:restyle-internal:%s:%s" % (attr, second),
+                              "exception inside the library's handlers: %s"
+                              % errors[:2],
+                              history=[["restyle", attr, second]])
+
+
 def shards(tier):
-    return [{"first": i} for i in range(len(menu()))]
+    return [{"first": i} for i in range(len(menu()))] + \
+        [{"cell": "derived"}, {"cell": "restyle"}]
 
 
 def run_shard(ctx, shard, tier):
+    if shard.get("cell") == "derived":
+        derived_cells(ctx, tier)
+        ctx.depth_completed = 2
+        return
+    if shard.get("cell") == "restyle":
+        restyle_cells(ctx)
+        ctx.depth_completed = 1
+        return
     evs = menu()
     depth = 3 if tier == "quick" else 4
     # quick tier: the last level uses a reduced menu (all link events, one
@@ -483,6 +669,12 @@ def replay(rec):
     from mc.ctx import Ctx
     ctx = Ctx("C20", None, "quick", 0)
     c = rec.get("case") or rec
+    if c.get("cell"):
+        derived_cells(ctx, "quick") if c["cell"] == "derived" \
+            else restyle_cells(ctx)
+        for v in ctx.violations.values():
+            print("  violation:", v["sig"], v["msg"])
+        return not ctx.violations
     hist = [tuple(e) for e in c["history"]]
     run_history(ctx, hist)
     print("history", hist)
